@@ -87,7 +87,11 @@ def _worker(job):
             hmod.setup_machine(machine, shape, opts)
         t0 = time.time()
         deadline = opts.get('deadline')
-        r = explore(machine, lambda ctx: hmod.run(ctx, shape, opts), max_paths=opts.get('max_paths'),
+        def hfun(ctx):
+            hmod.run(ctx, shape, opts)
+            if opts.get('twin'):
+                ctx.fail('reachability witness')   # vacuity twin: must come back violated
+        r = explore(machine, hfun, max_paths=opts.get('max_paths'),
                     deadline=deadline, stop_on_violation=opts.get('stop_on_violation', True))
         st = r['stats']
         return {'shape': shape, 'paths': st.paths, 'ok_paths': r['ok_paths'], 'infeasible': r['infeasible_paths'],
